@@ -14,7 +14,8 @@ cd "$wt"
 cp "$demo" "$wt/$pkg/zz_seed_demo_test.go"
 base_demo=$(go test -vet=off -count=1 -run SeedDemo "$pkg" 2>&1 | tail -3 | tr '\n' ' ')
 echo "$base_demo" | grep -q '^ok\|	ok\|^ok ' && base_ok=true || { echo "$base_demo" | grep -q "ok  " && base_ok=true || base_ok=false; }
-git apply "$src/patch.diff" || { echo "RESULT patch does not apply to HEAD"; exit 1; }
+git apply "$src/patch.diff" 2>/dev/null || patch -p1 -F3 -s --no-backup-if-mismatch < "$src/patch.diff" || { echo "RESULT patch does not apply to HEAD"; exit 1; }
+find . -name "*.orig" -delete 2>/dev/null
 build_ok=true; go build ./... 2>/dev/null || build_ok=false
 mv "$wt/$pkg/zz_seed_demo_test.go" /tmp/zz_seed_demo_$$.go
 suite=$(go test -vet=off -count=1 ./... 2>&1 | grep -v "no test files" | grep -v "^ok" | head -5 | tr '\n' ' ')
@@ -31,7 +32,7 @@ nviol=$(echo "$out" | grep -c '^VIOLATION')
 first=$(echo "$out" | grep -m1 '^VIOLATION' | cut -c1-400)
 verdict=MISSED; [ $rc -eq 1 ] && [ $nviol -gt 0 ] && verdict=DETECTED; [ $rc -ge 2 ] && verdict="ERROR($rc)"
 mkdir -p "seeded/$name"
-cp "$src/patch.diff" "seeded/$name/patch.diff"; cp "$demo" "seeded/$name/"; cp "$src/notes.md" "seeded/$name/notes.md" 2>/dev/null
+git -C "$wt" diff > "seeded/$name/patch.diff"; [ -s "seeded/$name/patch.diff" ] || cp "$src/patch.diff" "seeded/$name/patch.diff"; cp "$demo" "seeded/$name/"; cp "$src/notes.md" "seeded/$name/notes.md" 2>/dev/null
 python3 - "$id" "$name" "$pkg" "$base_ok" "$build_ok" "$suite_ok" "$mut_fails" "$verdict" "$nviol" "$first" "$(git -C /repo rev-parse --short HEAD)" <<'PY'
 import json,sys
 a=sys.argv[1:]
